@@ -247,6 +247,36 @@ CHECKS['C03'] = dict(
          'bounded.',
     thorough=True)
 
+SCEN_TECH = ('contract-based deductive verification by scenario: driver '
+             'programs over the real object-model API executed symbolically '
+             'through the real ASTs (values symbolic, tree shape fixed), '
+             'clauses discharged by z3/cvc5; bounded random histories on '
+             'CPython as labelled stand-in for shape')
+SCEN_NOTE = ('other = discharged for all VALUES on a fixed set of tree '
+             'SHAPES (scenario verification), plus a bounded random layer '
+             'for shapes and histories; not a proof over all trees.')
+CHECKS['C19'] = dict(
+    category='other',
+    text='Every typed attribute of every container kind (own and forwarded) '
+         'is exercised by a symbolic-value scenario through the real '
+         'constructors, descriptors and setters: accepted => right type and '
+         'choice and stored; rejected => whole tree and another tree '
+         'unchanged; == of two trees of equal shape <=> deep snapshot '
+         'equality. Values unbounded, tree shape fixed; Python-numeric '
+         'equality (1 == True) is a known finding seen by the bounded layer.',
+    design_ref='5/C19', technique=SCEN_TECH, note=SCEN_NOTE, thorough=True)
+CHECKS['C18'] = dict(
+    category='other',
+    text='Scenario obligations over the real constructors, add_change / '
+         'add_file, descriptors, __eq__, __repr__, to_bytes and the '
+         'object-model writer (streaming writer behind a stub contract whose '
+         'no-argument-mutation half is discharged on write_meta): mutating '
+         'one tree or section leaves all others deep-equal to their '
+         'snapshots; observers leave trees and writer object unchanged. '
+         'Values unbounded, shape fixed; parse-result isolation and '
+         'determinism by bounded random histories only.',
+    design_ref='5/C18', technique=SCEN_TECH, note=SCEN_NOTE, thorough=True)
+
 NOT_YET = 'check not built yet (work in progress; see DESIGN.md section 5)'
 NA = {}
 
